@@ -379,6 +379,17 @@ def mutateJob (s : Sys) (name : String) (f : JobV → JobV) : Sys :=
     let nj := { f cur with rv := s.rv + 1 }
     { s with rv := s.rv + 1, jobs := setJob s.jobs nj, jobEvs := s.jobEvs ++ [.update nj] }
 
+/-- the user edits `spec.startPolicy.startAfter` (set, clear, postpone, advance) of a Job that
+has a start policy and is not started yet: the validating webhook freezes the start policy only
+once `status.startTime` is set.  Any other Job is left alone.  The edit is an ordinary update:
+new resourceVersion, one watch event. -/
+def editStartAfter (s : Sys) (name : String) (t : Option Int) : Sys :=
+  match findJob s.jobs name with
+  | none => s
+  | some cur =>
+    if cur.hasPolicy && !cur.isStarted then mutateJob s name (fun j => { j with startAfter := t })
+    else s
+
 def removeJob (s : Sys) (name : String) : Sys :=
   match findJob s.jobs name with
   | none => s
